@@ -965,7 +965,9 @@ def t_link_dup(draw):
         name = 'NEW'
     else:
         name = draw(candidate(new, ns, 'file'))[0]
-    ops.append({'op': 'link', 'ns': ns, 'old': '/SRC', 'path': '/' + name, 'rr': 'lnk' if isrr else None})
+    # the link's Rock Ridge name: fresh, or the one a sibling already has (with a fresh ISO9660 identifier)
+    lrr = draw(st.sampled_from(['lnk', 'lnk', 'dst', 'src']))
+    ops.append({'op': 'link', 'ns': ns, 'old': '/SRC', 'path': '/' + name, 'rr': lrr if isrr else None})
     return {'h': 'link-dup', 'new': new, 'ops': ops}
 
 
